@@ -3,7 +3,7 @@
 Model: lean/Pose/Model/Stop.lean; theorems: lean/Proofs/Props/C20.lean.
 
 Correspondence streams (real code vs model, exact equality of (steps, patience_count, continual)):
-  graph.sop / graph.rtb : every (reachable controller state x letter) transition to depth 12 (16 thorough),
+  graph.sop / graph.rtb : every (reachable controller state x letter) transition to depth 10 quick / 16 thorough,
                           reached by restoring the full __dict__ of the real object (state merging), all
                           (steps 1..6 x patience 1..4) + out-of-range configurations, incl. reset() for rtb;
   trie.sop / trie.rtb   : literally every sequence over the 6-letter alphabet up to length L (5..8), every node
@@ -29,8 +29,8 @@ from . import util_stop as U
 
 META = {
     "rule": "graph: BFS over all reachable controller states (full __dict__ restored) x 6 letters (+reset) to depth "
-            "12/16 for every configuration in (steps 1..6 x patience 1..4) plus steps in {0,-1,7,12,13,50} / patience in "
-            "{0,5,6,12,13}; trie: all 6^L literal sequences for the 24 core configurations (quick: L=4..5 sop / 3..4 rtb for all, L=6 / 5 for a random subset; thorough: L=6..7 sop / 5 rtb for all, L=8 / 6 for a subset); "
+            "10 (quick) / 16 (thorough) for every configuration in (steps 1..6 x patience 1..4) plus steps in {0,-1,7,12,13,50} / patience in "
+            "{0,5,6,12,13}; trie: all 6^L literal sequences for the 24 core configurations (quick: L=4..5 sop / 3..4 rtb for all; thorough: L=6..7 sop / 5 rtb for all, L=8 / 6 for a subset); "
             "num: random walks over magnitude ladders with exact-boundary moves (ratio == decreasing, loss == tol, 0, "
             "negative), dtypes f32/f64/int/python float, batch shapes up to rank 2, resets and post-stop steps; "
             "drv: scripted + genuine optimizers/LQR/kNN, 1..4 calls per object with every per-call argument varied; "
@@ -49,7 +49,7 @@ META = {
                 "implementation; 'once false it stays false' is proved and checked unconditionally for it",
                 "IEEE rounding of (last-loss)/loss is not modelled: theorems over R, float code compared on inputs "
                 "whose decision does not flip under rounding (others regenerated, counted in input_distribution)",
-                "graph stream: exhaustive to length 12/16 through state merging (every reachable (steps, patience_count, "
+                "graph stream: exhaustive to length 10 (quick) / 16 (thorough) through state merging (every reachable (steps, patience_count, "
                 "continual[, last=inf?]) state x every letter); literal enumeration of all words only to length 4..8"],
 }
 
@@ -503,8 +503,17 @@ def gen_value(rng, l, D, TOL, dtype, is_int, extreme=False):
 
 SHAPES = [[1], [2], [3], [4], [2, 2], [1, 3], [3, 1], [2, 1, 2], [5], [3, 2], [7], [3, 3], [1, 1], [2, 3], [3, 1, 1], [0], [11]]
 LAYOUTS = ["fresh", "fresh", "fresh", "slice", "strided", "expanded"]
-STATE_KEYS = {"steps", "patience_count", "_continual", "last", "seen"}     # "seen": counter of the user subclass
+STATE_KEYS = {"steps", "patience_count", "_continual", "last", "seen", "seen_losses"}     # "seen": counter of the user subclass
 KLASSES = ["lib", "lib", "sub", "sub_step", "sub_prop"]
+KLASSES_DRV = KLASSES + ["falsy_len", "falsy_bool", "falsy_len", "falsy_bool"]   # steppers handed to a driver (ICP / MPC)
+
+
+def exhaust_if_bool(st, case):
+    """a `falsy_bool` stepper is handed over AFTER an earlier run exhausted it (its truth value is then False)"""
+    if case.get("klass") == "falsy_bool":
+        for _ in range(max(int(case["steps"]), 1) + 2):
+            st.step(1.0)
+        assert not st.continual()
 
 
 GRADS = ["plain", "plain", "requires_grad", "no_grad", "inference"]
@@ -2255,7 +2264,7 @@ def gen_mpc_case(ctx: Ctx):
     steps = rng.choice([1, 2, 2, 3, 4, 5, 6, 8, 10])
     return {"kind": "drv.mpc", "steps": steps, "patience": rng.choice([1, 2, 2, 3, 5]),
             "d": rng.choice([1e-3, 0.5, 1.0, 0.0]), "tol": rng.choice([1e-5, -1e9, -1e9, 1.0]),
-            "k_inits": rng.choice([1, 1, 1, 2, 3]), "real_lqr": False, "verbose": rng.random() < 0.5, "klass": rng.choice(KLASSES),
+            "k_inits": rng.choice([1, 1, 1, 2, 3]), "real_lqr": False, "verbose": rng.random() < 0.5, "klass": rng.choice(KLASSES_DRV),
             "style": rng.choice(["kw", "pos", "omit"]),
             "calls": mpc_calls(rng)}
 
@@ -2275,7 +2284,12 @@ def check_mpc(ctx: Ctx, case):
     sysm, Q, p, T, x0, ns, nc = mpc_parts()
     try:
         st = new_rtb(case)
+        exhaust_if_bool(st, case)
         mpcs = [P.module.MPC(sysm, Q, p, T, stepper=st) for _ in range(case["k_inits"])]
+        if any(m.stepper is not st for m in mpcs):
+            ctx.fail(case, f"given-stepper: MPC(stepper=<{type(st).__name__}, truth value {bool(st)}>) does not use the GIVEN stepper "
+                           f"object (it holds a {type(mpcs[0].stepper).__name__} with max_steps={mpcs[0].stepper.max_steps})")
+            return None
     except Exception as e:
         ctx.fail(case, f"raises: MPC constructor {type(e).__name__}: {str(e)[:100]}")
         return None
@@ -2449,7 +2463,7 @@ def _gen_icp_case(ctx: Ctx):
     return {"kind": "drv.icp", "steps": rng.choice([1, 2, 3, 4, 5, 6, 8]), "patience": rng.choice([1, 2, 2, 3, 4]),
             "d": U.rnd(rng.choice([1e-3, 0.5, 1.0]), "float32"), "tol": U.rnd(rng.choice([1e-5, 1e-5, 2.0 ** -10, -1.0]), "float32"),
             "batch": rng.choice([[], [1], [2], [3]]), "dtype": rng.choice(["float32", "float64"]),
-            "module_init": rng.random() < 0.4, "verbose": rng.random() < 0.5, "klass": rng.choice(KLASSES),
+            "module_init": rng.random() < 0.4, "verbose": rng.random() < 0.5, "klass": rng.choice(KLASSES_DRV),
             "style": rng.choice(["kw", "pos", "omit"]),
             "scripted": rng.random() < 0.75, "data_seed": rng.randrange(1 << 30),
             "calls": icp_calls(rng, call)}
@@ -2479,8 +2493,14 @@ def check_icp(ctx: Ctx, case):
     P = pp()
     g = torch.Generator().manual_seed(case["data_seed"])
     st = new_rtb(case)
+    exhaust_if_bool(st, case)
     minit = P.se3(0.1 * torch.randn(6, generator=g, dtype=U.TD[case["dtype"]])).Exp() if case.get("module_init") else None
     icp = P.module.ICP(init=minit, stepper=st)
+    if icp.stepper is not st:
+        ctx.fail(case, f"given-stepper: ICP(stepper=<{type(st).__name__}, truth value {bool(st)}>) does not use the GIVEN stepper "
+                       f"object (it holds a {type(icp.stepper).__name__} with max_steps={icp.stepper.max_steps}): budget "
+                       f"{case['steps']}, patience {case['patience']}, tol {case['tol']} are ignored")
+        # keep going: the loop oracles below show the consequence (iterations, the given stepper is never stepped)
     minit_before = None if minit is None else minit.tensor().clone()
     fp0 = fingerprint(st)
     oknn, osvd = icpmod.knn, icpmod.svdtf
@@ -2735,8 +2755,8 @@ def run_corpus(ctx: Ctx):
     for c, rep in zip(scases, ctx.driver.run([sop_num_line(c) for c in scases])):
         guarded(ctx, c, check_sop_num, ctx, c, rep)
     mpcs, icps = corpus_drivers()
-    mpcs = [dict(c, verbose=v) for c in mpcs for v in (False, True)]
-    icps = [dict(c, verbose=v) for c in icps for v in (False, True)]
+    mpcs = [dict(c, verbose=v, klass=k) for c in mpcs for v, k in ((False, "lib"), (True, "falsy_len"), (False, "falsy_bool"))]
+    icps = [dict(c, verbose=v, klass=k) for c in icps for v, k in ((False, "lib"), (True, "falsy_len"), (False, "falsy_bool"))]
     res = []
     for c in mpcs:
         res += [("drv.mpc", c, x) for x in (guarded(ctx, c, check_mpc, ctx, c) or [])]
@@ -2774,13 +2794,13 @@ def run_corpus(ctx: Ctx):
     saved = ctx.rng
     ctx.rng = random.Random(0xC20)
     try:
-        run_graph(ctx, "sop", core_configs()[::2] + [(3, 2), (2, 1), (5, 3), (1, 1)] * 2, 7)
-        run_graph(ctx, "rtb", core_configs()[1::4] + [(3, 2), (2, 1), (5, 3), (1, 1)] * 2, 6)
-        run_trie(ctx, "sop", core_configs(), 4)
+        run_graph(ctx, "sop", core_configs()[::2] + [(3, 2), (2, 1), (5, 3), (1, 1)] * 2, 6)
+        run_graph(ctx, "rtb", core_configs()[1::4] + [(3, 2), (2, 1), (5, 3), (1, 1)] * 2, 5)
+        run_trie(ctx, "sop", core_configs()[::2] + core_configs()[1::6], 4)
         run_trie(ctx, "rtb", core_configs()[::3], 3)
-        run_num_rtb(ctx, 160, 40)
+        run_num_rtb(ctx, 120, 40)
         run_num_rtb(ctx, 2, 420, long=True)
-        run_num_sop(ctx, 120, 40)
+        run_num_sop(ctx, 90, 40)
         run_big(ctx, [16385, 65537, 16384, 1025, 2 ** 17 + 1])
         for N in (16385, 65537, 2 ** 18 + 37):        # the LAST / FIRST element alone decides
             for sp in (N - 1, 0):
@@ -2788,15 +2808,15 @@ def run_corpus(ctx: Ctx):
                      "klass": "lib", "modes": ["dec", "below_all_but_one", "plateau_all_but_one", "plateau_one", "plateau_all", "below_all"]}
                 guarded(ctx, c, check_big, ctx, c)
                 ctx.note_case(("big.corpus", N, sp), True)
-        run_narrow(ctx, 120)
-        run_numx_rtb(ctx, 250)
-        run_numx_sop(ctx, 150)
+        run_narrow(ctx, 80)
+        run_numx_rtb(ctx, 160)
+        run_numx_sop(ctx, 100)
         run_defaults(ctx, 40)
         for kinds in (["mpc", "mpc", "mpc"], ["icp", "mpc", "icp", "mpc"], ["rtb", "rtb", "sop", "sop"]):
             c = {"kind": "shared_defaults", "kinds": kinds, "steps": 8, "rounds": 2, "seed": 5}
             guarded(ctx, c, check_shared_defaults, ctx, c)
         run_interleave(ctx, 30)
-        run_copies(ctx, 60)
+        run_copies(ctx, 40)
         run_drv_optimize(ctx, 120)
         run_drv_mpc(ctx, 60, 2)
         run_drv_icp(ctx, 25)
@@ -2834,18 +2854,16 @@ def _run(ctx: Ctx):
     run_corpus(ctx)
     core = core_configs()
     extra = extra_configs(rng, 8 if q else 80)
-    depth = 12 if q else 16
+    depth = 10 if q else 16
     run_graph(ctx, "sop", core + extra, depth)
     run_graph(ctx, "rtb", core + extra, depth)
     if q:
         sh = list(core)
         rng.shuffle(sh)
-        run_trie(ctx, "sop", sh[:8], 5)
-        run_trie(ctx, "sop", sh[8:], 4)
-        run_trie(ctx, "sop", rng.sample(core, 1), 6)
-        run_trie(ctx, "rtb", sh[:6], 4)
-        run_trie(ctx, "rtb", sh[6:], 3)
-        run_trie(ctx, "rtb", rng.sample(core, 1), 5)
+        run_trie(ctx, "sop", sh[:6], 5)
+        run_trie(ctx, "sop", sh[6:], 4)
+        run_trie(ctx, "rtb", sh[:4], 4)
+        run_trie(ctx, "rtb", sh[4:], 3)
     else:
         sh = list(core)
         rng.shuffle(sh)
@@ -2854,7 +2872,7 @@ def _run(ctx: Ctx):
         run_trie(ctx, "sop", rng.sample(core, 1), 8)
         run_trie(ctx, "rtb", core, 5)
         run_trie(ctx, "rtb", sh[:8], 6)
-    run_num_rtb(ctx, ctx.pick(300, 2500), 40 if q else 150)
+    run_num_rtb(ctx, ctx.pick(180, 2500), 40 if q else 150)
     run_num_rtb(ctx, ctx.pick(2, 12), 420 if q else 1500, long=True)
     run_num_sop(ctx, ctx.pick(350, 2500), 40 if q else 150)
     run_big(ctx, [16385, 65537, 131073] if q else [2 ** k + e for k in (10, 12, 13, 14, 15, 16, 17) for e in (-1, 0, 1)]
@@ -2864,9 +2882,9 @@ def _run(ctx: Ctx):
     run_numx_sop(ctx, ctx.pick(250, 2500))
     run_defaults(ctx, ctx.pick(40, 200))
     run_shared_defaults(ctx, ctx.pick(6, 60))
-    run_interleave(ctx, ctx.pick(60, 400))
-    run_copies(ctx, ctx.pick(120, 800))
-    run_drv_optimize(ctx, ctx.pick(400, 4000))
+    run_interleave(ctx, ctx.pick(40, 400))
+    run_copies(ctx, ctx.pick(60, 800))
+    run_drv_optimize(ctx, ctx.pick(300, 4000))
     run_drv_optimize_real(ctx, ctx.pick(8, 200))
     run_drv_mpc(ctx, ctx.pick(150, 2000), ctx.pick(8, 100))
     run_drv_icp(ctx, ctx.pick(35, 500))
